@@ -163,6 +163,13 @@ func (f *Flat) SplitBools() *Flat {
 				t, fl := cond3(x.X, v)
 				return fl, t
 			}
+		case *ast.CallExpr:
+			// errors.Is(err, X) / errors.As(err, &t) of an error known to be nil is false
+			if (isFunc(info, x, "errors", "Is") || isFunc(info, x, "errors", "As")) && len(x.Args) == 2 {
+				if i, ok := idx[objOf(info, x.Args[0])]; ok && v[i] == 2 {
+					return false, true
+				}
+			}
 		case *ast.BinaryExpr:
 			if x.Op == token.EQL || x.Op == token.NEQ {
 				// err != nil / err == nil on a tracked error local
